@@ -603,6 +603,7 @@ class MultiRun:
         self.model_events = []
         self.sha = []
         self.expect_ok = []      # indices of events that are conforming answers of a live exchange
+        self.vanished = []       # ... at which the cookie the bus named in the still outstanding challenge is no longer in the keyring
 
     def client_lookup(self, cid):
         """ClientAuthenticator._authGetDBusCookie: the first line whose id matches"""
@@ -658,6 +659,9 @@ class MultiRun:
                 self.sha.append([tohash, hashlib.sha1(tohash).hexdigest().encode('ascii')])
                 if ev[2] == 'right':
                     self.expect_ok.append(n)
+                    if k['cookie'] is not None and self.client_lookup(k['cid']) is None:
+                        # a conforming client may just as well read the keyring now, when it answers
+                        self.vanished.append(n)
                 im.deliver(k['p'], b'DATA ' + resp.hex().encode('ascii') + b'\r\n')
                 k['live'] = False
                 if len(base.verdicts) > nv:
@@ -734,6 +738,12 @@ def evaluate(ctx, cases, res):
                                     'was not accepted by DBUS_COOKIE_SHA1 while other exchanges overlap (verdict %r, ids in '
                                     'the file after each event %r)' % (k, impl[k][1], [i for i, _ in impl]),
                                     'conforming-client-not-accepted:DBUS_COOKIE_SHA1:overlapping')
+                for k in run.vanished:
+                    res.violate(case, 'event %d: the cookie the bus named in a challenge that is still outstanding had been in the '
+                                'keyring and is gone from it before the client answers (another exchange ended in between): a '
+                                'conforming client that reads its keyring when it answers cannot present the right cookie '
+                                '(ids in the file after each event %r)' % (k, [i for i, _ in impl]),
+                                'conforming-client-not-accepted:DBUS_COOKIE_SHA1:cookie-of-outstanding-challenge-removed')
                 continue
             obs = canon_obs(impl_obs[n])
             if case[0] == 'o':
